@@ -852,9 +852,9 @@ pub fn heap_sweep<F: Fl>(job: &Job, k: usize, out: &mut Out) {
         let m = GModel::new(n, F::DIRECTED, &conns, &vals);
         let w = build_world::<F>(&vals, &conns);
         for kind in [Kind::PfsMin, Kind::PfsMax] {
-            let mut cfgs = vec![Cfg { kind, transpose: false, target: None, meth: Meth::ForEach, res: ResK::Search, alt: false }];
+            let mut cfgs = vec![Cfg { kind, transpose: false, target: None, meth: Meth::ForEach, res: ResK::Search, alt: false, tt: false }];
             for t in [k, k + 1, 2 * k] {
-                cfgs.push(Cfg { kind, transpose: false, target: Some(t as K), meth: Meth::ForEach, res: ResK::Path, alt: false });
+                cfgs.push(Cfg { kind, transpose: false, target: Some(t as K), meth: Meth::ForEach, res: ResK::Path, alt: false, tt: false });
             }
             for cfg in cfgs {
                 crate::progress::tick();
@@ -882,7 +882,7 @@ pub fn configs(prop: &str, directed: bool, n: usize, root: K, arcs: &[Arc3], arc
     let mut v = Vec::new();
     let targets: Vec<K> = (0..n as K).filter(|t| *t != root).collect();
     let subs = subsets(arcs);
-    let mk = |kind, transpose, target, meth, res| Cfg { kind, transpose, target, meth, res, alt: false };
+    let mk = |kind, transpose, target, meth, res| Cfg { kind, transpose, target, meth, res, alt: false, tt: false };
     // the search properties are also swept transposed on the directed flavours (oracle: the reversed model)
     let subs_t = if directed { subsets(arcs_t) } else { vec![] };
     let passes: Vec<(bool, &Vec<Vec<Arc3>>)> = if directed && matches!(prop, "C04" | "C05" | "C06" | "C09" | "C10") { vec![(false, &subs), (true, &subs_t)] } else { vec![(false, &subs)] };
@@ -1017,6 +1017,18 @@ pub fn configs(prop: &str, directed: bool, n: usize, root: K, arcs: &[Arc3], arc
         _ => {}
     }
     }
+    if prop == "C08" {
+        // transpose() called twice is still "configured with transpose()"
+        let mut tts = Vec::new();
+        for (cfg, reject, mode) in &v {
+            if cfg.transpose && reject.is_empty() && cfg.meth != Meth::Filter && (*mode == "diff" || *mode == "diffonly") {
+                let mut c2 = *cfg;
+                c2.tt = true;
+                tts.push((c2, reject.clone(), *mode));
+            }
+        }
+        v.extend(tts);
+    }
     if matches!(prop, "C06" | "C07" | "C08" | "C09" | "C10") {
         // the builder calls in the other order (closure first, then transpose / target, then
         // pre()/post() for the orderings and min()/max() for the priority-first searches)
@@ -1025,7 +1037,7 @@ pub fn configs(prop: &str, directed: bool, n: usize, root: K, arcs: &[Arc3], arc
             if !matches!(prop, "C07" | "C10") && !(matches!(cfg.kind, Kind::PfsMin | Kind::PfsMax) && reject.len() <= 1) {
                 continue;
             }
-            if (mode.is_empty() || *mode == "diff") && (cfg.meth != Meth::None || cfg.transpose || cfg.target.is_some()) {
+            if !cfg.tt && (mode.is_empty() || *mode == "diff") && (cfg.meth != Meth::None || cfg.transpose || cfg.target.is_some()) {
                 let mut c2 = *cfg;
                 c2.alt = true;
                 alts.push((c2, reject.clone(), *mode));
